@@ -386,6 +386,13 @@ type Specs struct {
 	Lemmas    map[string]*Lemma
 	Models    map[string]*ModelField // key: pkgpath.Type.field
 	Files     []string
+	Globals   []GlobalAssume // assume-global clauses: axioms about uninterpreted functions, by package
+}
+
+// GlobalAssume is an assumption available in every verification unit of its package (and listed in the evidence).
+type GlobalAssume struct {
+	Pkg    string
+	Clause Clause
 }
 
 func NewSpecs() *Specs {
@@ -394,7 +401,7 @@ func NewSpecs() *Specs {
 
 var clauseKeywords = map[string]bool{"requires": true, "ensures": true, "modifies": true, "pure": true, "inline": true, "trusted": true,
 	"safety": true, "panics": true, "ensures-local": true, "loop": true, "invariant": true, "decreases": true, "unroll": true, "attr": true, "noverify": true,
-	"vars": true, "assume": true, "let": true, "assert": true, "axiom": true, "at-call": true}
+	"vars": true, "assume": true, "let": true, "assert": true, "axiom": true, "at-call": true, "assume-global": true}
 
 // LoadSpecFile parses a contract file. pkgPath is the package the file's unqualified keys refer to ("" for shared spec files
 // where `func` keys must be fully qualified as pkgpath:Key).
@@ -516,6 +523,13 @@ func (S *Specs) LoadSpecFile(path, pkgPath string) error {
 			}
 			S.SpecFns[sf.Name] = sf
 			curSpec = sf
+		case "assume-global":
+			c, err := parseClause()
+			if err != nil {
+				return err
+			}
+			c.Label = label
+			S.Globals = append(S.Globals, GlobalAssume{Pkg: pkgPath, Clause: c})
 		case "axiom":
 			if curSpec == nil {
 				return fail(l.n, "axiom outside spec")
